@@ -81,6 +81,18 @@ add("C17", "exploration",
     "The projection comes from the reference UTXO set, which the same run ties to the node's UTXO dump after every delivery. Address-hash collisions (64-bit siphash) are not exercised.",
     "DESIGN.md §3 C17")
 
+add("C14", "exploration",
+    "differential runtime monitor: library HD / BIP39 / key codec functions and the real wallet binary (built from the tree, run in throw-away directories) vs independent BIP32/BIP39/secp256k1/address reference models; determinism by running twice",
+    "Held on the cases observed: tens of thousands of library-level derivations (CKDpriv/CKDpub, xpub children equal public counterparts, serialisation round trips, BIP39 entropy<->mnemonic and seeds, DeriveNext) and ~160 wallet scenarios / ~900 wallet runs per quick run "
+    "(types 3/4, hd paths with hardened mixes, hdsubs, bip39 word counts and user mnemonics, scrypt, address types, testnet) where every listed address, dumped key, xpub child, xprv and mnemonic equals the reference derivation, re-imports to the same key, and two runs list the same keys.",
+    "Oracle = /verif/ref/refhd + refaddr (own secp256k1, calibrated on BIP32 vectors 1-5, Trezor BIP39 vectors, RFC 6070/7914, pinned wallet test addresses). Interactive prompts are not driven; NFKD is modelled for a few code points only.",
+    "DESIGN.md §3 C14")
+add("C15", "exploration",
+    "differential runtime monitor: address / WIF / bech32 codecs vs an independent reference (refaddr) on exhaustive version x length grids, mutated valid strings (<=4 substitutions, insertions, deletions, case flips, wrong checksum variant, padding) and arbitrary short strings; coding-theory oracle for <=4 substitutions",
+    "Held on the strings observed: ~1.6M address strings, 120k <=4-substitution cases (always refused), 150k WIF strings and 110k raw bech32 decodes per quick run: accept/refuse verdicts, decoded scripts and re-encodings equal the reference in both directions.",
+    "Oracle = /verif/ref/refaddr calibrated on the BIP173/BIP350 vector lists, base58_encode_decode.json and the repo's WIF/address vectors. Base58 versions gocoin maps to no script are only checked for not being mapped to P2PKH/P2SH.",
+    "DESIGN.md §3 C15")
+
 NOT_BUILT = {}
 
 def main():
